@@ -43,6 +43,8 @@ func (Prop) Plan(t vp.Tier) []vp.Stage {
 	st := []vp.Stage{
 		{Name: "scripts", NBatches: 16, TimeoutS: 1800, TimeoutIsViolation: true, DeadlockOnly: true},
 		{Name: "programs", NBatches: 16, TimeoutS: 1800, TimeoutIsViolation: true, DeadlockOnly: true},
+		{Name: "callbacks", NBatches: 4, TimeoutS: 900, TimeoutIsViolation: true, DeadlockOnly: true},
+		{Name: "callbacks-race", NBatches: 2, Race: true, TimeoutS: 900, TimeoutIsViolation: true, DeadlockOnly: true},
 	}
 	nv := 3
 	if t == vp.Thorough {
@@ -82,6 +84,7 @@ func (Prop) Describe(t vp.Tier) vp.Description {
 			"event sequence must equal the reference's. Stage programs: generated coroutine-heavy programs. Stages race-*: slices of both on -race builds (data races, checkptr) under GOMAXPROCS in {1,2,4,16} with delays injected at the hand-off points "+
 			"(yield / sleep after the send in Thread.end, at every point); the hooks assert that no Lua instruction or Go function runs in a thread other than the owner of the baton. After every case: no dead coroutine may still own a goroutine "+
 			"(start/exit hook events, polled <= 200 ms). A batch that does not finish is a deadlock only if the SIGQUIT dump shows no running/runnable goroutine. "+
+			"Stage callbacks: a coroutine yields from inside a callback (sort comparator, gsub function, metamethod handlers, load reader, iterator, protected calls) with a <close> variable pending, then is closed or resumed to its end: invariants that hold whatever the construct does (dead after close, handler exactly once, nothing runs afterwards, return value delivered once). " +
 			"Non-trivial: >= 2 coroutine hand-offs (resume/yield/close) in the reference run; distinct by program text.", len(allScripts(t))),
 		Assumptions: []string{
 			"refvm's coroutine semantics is a correct reading of manual section 6.2; texts of the 'cannot resume ...' messages are not compared; a second coroutine.close after an error gives no verdict",
@@ -134,6 +137,8 @@ func (Prop) RunBatch(c *vp.Child) {
 	all := allScripts(c.Tier)
 	race := strings.HasPrefix(c.Stage, "race-")
 	switch {
+	case strings.HasPrefix(c.Stage, "callbacks"):
+		callbacks(c)
 	case c.Stage == "scripts":
 		// quick: all one-coroutine scripts and every third two-coroutine script
 		// (rotating with the seed); thorough: all of them, in two renderings
